@@ -50,3 +50,34 @@ package middleware
 //@     && arg(Validate, 0) == ret0(findBasicCredentialsFromHeader) && arg(Validate, 1) == ret1(findBasicCredentialsFromHeader)
 //@     && ret2(findBasicCredentialsFromHeader) == nil
 //@ ensures[user-is-validated-user] ret0 != nil ==> ret0.User == arg(Validate, 0) && ret0.Email == ""
+
+// ------------------------------------------------------------------ C12 / C13 / C09: refresh and re-validation
+//@ func needsRefresh
+//@ prop C12
+//@ ensures[threshold] result <==> refreshPeriod > 0 && ret(Age) > refreshPeriod
+
+//@ func (*storedSessionLoader).validateSession
+//@ prop C12
+//@ ensures[valid-iff-unexpired-and-provider-validates] ret0 == nil <==> !ret(IsExpired) && called(sessionValidator) && ret(sessionValidator)
+//@ at call sessionValidator assert[validates-this-session] arg(sessionValidator, 1) == session
+
+//@ func (*storedSessionLoader).refreshSession
+//@ prop C12 C09 C13 C14
+//@ at call Save assert[restamped-before-save] called(CreatedAtNow) && arg(CreatedAtNow, 0) == session && arg(Save, 2) == session
+//@     && (ret0(sessionRefresher) || errors.Is(ret1(sessionRefresher), providers.ErrNotImplemented))
+//@ ensures[refresher-error-extends-nothing] ret1(sessionRefresher) != nil && !errors.Is(ret1(sessionRefresher), providers.ErrNotImplemented)
+//@     ==> ret0 != nil && !called(Save) && !called(CreatedAtNow)
+//@ ensures[not-refreshed-not-restamped] !ret0(sessionRefresher) && !errors.Is(ret1(sessionRefresher), providers.ErrNotImplemented)
+//@     ==> !called(Save) && !called(CreatedAtNow)
+//@ ensures[save-error-propagates] called(Save) && ret(Save) != nil ==> ret0 != nil
+//@ ensures[refreshed-is-saved] ret0 == nil && ret0(sessionRefresher) ==> called(Save) && ret(Save) == nil
+
+//@ func (*storedSessionLoader).refreshSessionIfNeeded
+//@ prop C12 C13
+//@ at call refreshSession assert[refresh-only-under-lock-after-reload-and-recheck] lockObtained
+//@     && called(Load) && ret1(Load) == nil && ret0(Load) != nil && ret(needsRefresh#1) && arg(refreshSession, 3) == session
+//@ ensures[stale-never-honoured-unchecked] ret0 == nil ==> !ret(needsRefresh#0)
+//@     || (called(Load) && ret1(Load) == nil && ret0(Load) != nil && !ret(needsRefresh#1))
+//@     || (called(validateSession) && ret(validateSession) == nil && arg(validateSession, 2) == session)
+//@ ensures[reload-failure-is-error] called(Load) && (ret1(Load) != nil || ret0(Load) == nil) ==> ret0 != nil
+//@ ensures[validation-follows-refresh-attempt] called(refreshSession) ==> called(validateSession) && ret0 == ret(validateSession)
